@@ -12,6 +12,9 @@ import (
 	"sync/atomic"
 	"time"
 
+	"golang.org/x/net/http2"
+	"golang.org/x/net/http2/h2c"
+
 	"verif/internal/core"
 	"verif/internal/fakes"
 	"verif/internal/rawhttp"
@@ -25,6 +28,7 @@ var c07Faults = []struct{ Point, Kind string }{
 	{"backend", "refused"},
 	{"backend", "garbage-status"}, {"backend", "huge-headers"}, {"backend", "close-before-headers"}, {"backend", "rst"},
 	{"backend", "short-content-length"}, {"backend", "rst-mid-chunk"}, {"backend", "bad-chunk-size"}, {"backend", "one-byte-then-trailers"}, {"backend", "lying-content-encoding"},
+	{"backend-h2", "abort-before-headers"}, {"backend-h2", "abort-mid-body"}, {"backend-h2", "huge-headers"}, {"backend-h2", "slow-then-abort"},
 	{"upload", "500x3"}, {"upload", "404"}, {"upload", "reset-at-0"}, {"upload", "reset-at-4096"}, {"upload", "reset-at-end"}, {"upload", "stall"},
 	{"shim", "data-malformed-json"}, {"shim", "data-unknown-session"}, {"shim", "poll-unknown-session"}, {"shim", "close-unknown-session"}, {"shim", "open-backend-refuses-upgrade"}, {"shim", "open-slow-failure-overlapping-opens"}, {"shim", "open-malformed-url"}, {"shim", "data-wrong-shape"},
 }
@@ -34,6 +38,7 @@ type c07Lane struct {
 	cfg  []string
 	shim bool
 	sess bool
+	h2   bool // agent started with --force-http2 against an h2c backend
 }
 
 // C07 — one failing request never takes down the agent or other requests.
@@ -50,6 +55,7 @@ func C07(r *core.Run) {
 	defer md.Close()
 	lanes := []c07Lane{
 		{name: "plain", cfg: []string{"--proxy-timeout=3s"}},
+		{name: "h2", cfg: []string{"--proxy-timeout=3s", "--force-http2=true"}, h2: true},
 		{name: "full", cfg: []string{"--proxy-timeout=3s", "--shim-path=shim", "--shim-websockets=true", "--session-cookie-name=SID", "--disable-ssl-for-test=true", "--inject-banner=<b>banner</b>"}, shim: true, sess: true},
 	}
 	reps := r.Pick(1, 4)
@@ -276,7 +282,20 @@ func c07Lane_(r *core.Run, agentBin string, md *fakes.Metadata, li int, ln c07La
 		}
 		return true
 	}
-	agent, err := startAgent(r, agentBin, "agent7-"+ln.name, md, px.URL(), backend.Srv.Addr(), "b7-"+ln.name, ln.cfg...)
+	backendAddr := backend.Srv.Addr()
+	if ln.h2 {
+		h2l, err := net.Listen("tcp", "127.0.0.1:0")
+		if err != nil {
+			r.Broken(err.Error())
+			return
+		}
+		defer h2l.Close()
+		h2srv := &http.Server{Handler: h2c.NewHandler(http.HandlerFunc(c07H2Handler), &http2.Server{})}
+		go h2srv.Serve(h2l)
+		defer h2srv.Close()
+		backendAddr = h2l.Addr().String()
+	}
+	agent, err := startAgent(r, agentBin, "agent7-"+ln.name, md, px.URL(), backendAddr, "b7-"+ln.name, ln.cfg...)
 	if err != nil {
 		r.Broken(err.Error())
 		return
@@ -429,6 +448,9 @@ func c07Lane_(r *core.Run, agentBin string, md *fakes.Metadata, li int, ln c07La
 			if f.Point == "shim" && !ln.shim {
 				continue
 			}
+			if f.Point == "backend-h2" && !ln.h2 || ln.h2 && f.Point == "backend" && f.Kind != "refused" {
+				continue
+			}
 			if !agent.Alive() {
 				break
 			}
@@ -460,6 +482,11 @@ func c07Lane_(r *core.Run, agentBin string, md *fakes.Metadata, li int, ln c07La
 					wait = 6 * time.Second
 				}
 				px.Wait(id, wait)
+			case "backend-h2":
+				var w rawhttp.Builder
+				w.Line(fmt.Sprintf("GET /fault/%s/%d HTTP/1.1", f.Kind, inj)).Field("Host", "c07.example").Field("Accept-Encoding", "identity").End()
+				px.Enqueue(id, w.Bytes(), "")
+				up, got = px.Wait(id, 3*time.Second)
 			case "backend":
 				if f.Kind == "refused" {
 					// close the backend listener, issue the request, reopen on the same port
@@ -582,4 +609,51 @@ func c07Refused(r *core.Run, agentBin string, md *fakes.Metadata, ln c07Lane, li
 		r.Violate(core.CrashSignature(ex), "agent crashed: "+ex, nil, nil)
 	}
 	return up, ok
+}
+
+// c07H2Handler is the h2c backend of the --force-http2 lane: token responses
+// and handler-level faults.
+func c07H2Handler(w http.ResponseWriter, req *http.Request) {
+	if strings.HasPrefix(req.URL.Path, "/fault/") {
+		switch strings.Split(req.URL.Path, "/")[2] {
+		case "abort-before-headers":
+			panic(http.ErrAbortHandler)
+		case "abort-mid-body":
+			w.Header().Set("Content-Length", "1000")
+			w.Write([]byte(strings.Repeat("x", 100)))
+			if fl, ok := w.(http.Flusher); ok {
+				fl.Flush()
+			}
+			panic(http.ErrAbortHandler)
+		case "huge-headers":
+			for i := 0; i < 1200; i++ {
+				w.Header().Set(fmt.Sprintf("X-Pad-%d", i), strings.Repeat("p", 1000))
+			}
+			w.Write([]byte("x"))
+		case "slow-then-abort":
+			w.Write([]byte("partial"))
+			if fl, ok := w.(http.Flusher); ok {
+				fl.Flush()
+			}
+			time.Sleep(300 * time.Millisecond)
+			panic(http.ErrAbortHandler)
+		}
+		return
+	}
+	tok, size, delay, ok := parseTokPath(req.URL.Path)
+	if !ok {
+		w.Write([]byte("ok"))
+		return
+	}
+	if delay > 0 {
+		time.Sleep(time.Duration(delay) * time.Millisecond)
+	}
+	tr := tokResponseFor(tok, size)
+	for _, f := range tr.Fields {
+		w.Header().Add(f.Name, f.Value)
+	}
+	w.Header().Add("Trailer", "X-Tok-Trailer")
+	w.WriteHeader(tr.Status)
+	w.Write(tr.Body)
+	w.Header().Set("X-Tok-Trailer", tok)
 }
